@@ -116,6 +116,8 @@ def cases(tier):
                 if tag == "dag" and var in (1, 3):
                     yield _case("edge", ev, None, wt, lam=0.5)
                     yield _case("edge", ev, None, wt, lam=2)
+                    yield _case("edge", ev, None, wt, lam=2, eps=1)            # both stages: the (1+eps) budget is on the SAME objective (change + lambda * outflow)
+                    yield _case("edge", ev, None, wt, lam=0.5, eps=0.25)
                 # --- node-weighted
                 if var in (0, 1, 2, 3) or tier != "quick":
                     yield _case("node", E, nv, wt)
@@ -420,6 +422,9 @@ def check(case):
         if eps is None and not near(sol["objective_value"], opt):
             return _fail("sparsity objective is not the minimum of scaled change + lambda * source outflow",
                          "reported %r oracle %s; %s; corrected %s" % (sol["objective_value"], float(opt), desc, got))
+        if eps is not None and inflow is not None and float(S + _F(lam) * inflow) > (1 + eps) * float(opt) + TOL * (1 + float(opt)):
+            return _fail("few-values result exceeds (1+eps) times the optimum of scaled change + lambda * source outflow",
+                         "objective of the result %s, oracle optimum %s; %s; corrected %s" % (float(S + _F(lam) * inflow), float(opt), desc, got), opt=str(opt))
         return late or dict(ok=True, nontrivial=opt > 0, detail=dict(opt=str(opt), S=str(S)))
     if eps is None:
         if float(S) > float(opt) + TOL * (1 + float(opt)):
